@@ -202,12 +202,33 @@ func (r *c17Route) wd() *bgp.BGPMessage {
 }
 
 // c17Rtm builds an RT-membership UPDATE. rt == nil and as == 0: the default membership.
+// c17RtmLen: prefix length of the next RT-membership NLRI built by c17Rtm (-1: the natural one)
+var c17RtmLen = -1
+
 func c17Rtm(from *c17Peer, as uint32, rt bgp.ExtendedCommunityInterface, withdraw bool, lps ...uint32) *bgp.BGPMessage {
 	lp := uint32(100)
 	if len(lps) > 0 {
 		lp = lps[0]
 	}
 	n := bgp.NewRouteTargetMembershipNLRI(as, rt)
+	if c17RtmLen >= 0 {
+		// explicit prefix length: 0, 32 (origin AS only), 33..95 (leading bits of the route target), 96
+		n.Length = uint8(c17RtmLen)
+		if c17RtmLen <= 32 {
+			n.RouteTarget = nil
+		} else if c17RtmLen < 96 {
+			// what the receiver's decoder makes of the truncated prefix: the leading bits, zero-padded
+			// (the message object is handed over without a trip through the codec)
+			v := c17ECNum(rt) & (^uint64(0) << (96 - c17RtmLen))
+			var b [8]byte
+			for i := 0; i < 8; i++ {
+				b[i] = byte(v >> (56 - 8*i))
+			}
+			if m, err := bgp.ParseExtended(b[:]); err == nil {
+				n.RouteTarget = m
+			}
+		}
+	}
 	if withdraw {
 		un, _ := bgp.NewPathAttributeMpUnreachNLRI(bgp.RF_RTC_UC, []bgp.PathNLRI{{NLRI: n}})
 		return bgp.NewBGPUpdateMessage(nil, []bgp.PathAttributeInterface{un}, nil)
@@ -245,6 +266,7 @@ type c17Ev struct {
 	rt     bgp.ExtendedCommunityInterface // mem: nil = default
 	as     uint32
 	memWd  bool
+	memLen int // mem: explicit prefix length (0 = the natural one: 0 / 32 / 96)
 }
 
 type c17Live struct {
@@ -271,6 +293,9 @@ type c17World struct {
 	ann     map[string]*c17Live    // "src/pid/rd/pfx" -> live announcement from a PE source
 	ceAnn   map[string]*c17Live    // "ce/pfx"
 	green   bool
+	memCode []map[[2]uint64]bool // per observer: (key, origin AS) as rtmSet keeps them (the length is not part of its key)
+	hadPartial []bool            // per observer: a partial-length membership was withdrawn through a twin key
+	susp    []bool               // per observer: advertisement suppressed (local speaker restarting)
 	shared  map[string]bool // "ce/prefix": imported under several RDs since the CE last held the right route
 	policy  bool // a global import policy that modifies every route (adds a community): the table holds clones
 	cloneID int
@@ -371,6 +396,9 @@ func c17NewWorld(t testing.TB, o *vOut, policy ...bool) *c17World {
 	cw.ceVrf = []int{0, 1}
 	for range cw.obs {
 		cw.memOn = append(cw.memOn, map[[3]uint64]bool{})
+		cw.memCode = append(cw.memCode, map[[2]uint64]bool{})
+		cw.susp = append(cw.susp, false)
+		cw.hadPartial = append(cw.hadPartial, false)
 		cw.obsView = append(cw.obsView, map[string]int{})
 	}
 	for range cw.ces {
@@ -517,9 +545,12 @@ func (cw *c17World) flushAll(askObs func(i int, msgs []string), askCE func(i int
 
 // ---- oracles ----------------------------------------------------------------------------------
 
+// interested: RFC 4684 - a membership of prefix length L covers a route target iff their first L-32
+// bits agree (L <= 32: origin AS only or default, covers everything). memOn keys are (route target
+// as sent, zero-padded to L; origin AS; L).
 func (cw *c17World) interested(i int, ecs []bgp.ExtendedCommunityInterface) bool {
 	for k := range cw.memOn[i] {
-		if k[0] == 0 {
+		if k[2] <= 32 {
 			return true
 		}
 	}
@@ -529,6 +560,27 @@ func (cw *c17World) interested(i int, ecs []bgp.ExtendedCommunityInterface) bool
 			continue
 		}
 		for k := range cw.memOn[i] {
+			if (num^k[0])>>(96-k[2]) == 0 {
+				return true
+			}
+		}
+	}
+	return false
+}
+
+// interestedAsCoded: what rtmSet does - the zero-padded value is an exact key, whatever the length
+func (cw *c17World) interestedAsCoded(i int, ecs []bgp.ExtendedCommunityInterface) bool {
+	for k := range cw.memCode[i] {
+		if k[0] == 0 {
+			return true
+		}
+	}
+	for _, e := range ecs {
+		capable, _, num := c17Octets(e)
+		if !capable {
+			continue
+		}
+		for k := range cw.memCode[i] {
 			if k[0] == num {
 				return true
 			}
@@ -596,19 +648,37 @@ func (cw *c17World) checkViews(after string, hist *[]string) {
 		if !p.up {
 			continue
 		}
-		want := map[string]int{}
+		want, asCoded := map[string]int{}, map[string]int{}
+		partial := false
+		for k := range cw.memOn[i] {
+			if k[2] > 32 && k[2] < 96 {
+				partial = true
+			}
+		}
 		for _, b := range bests {
+			vn := b.GetNlri().(*bgp.LabeledVPNIPAddrPrefix)
+			key := fmt.Sprintf("%d %d", c17RDNames[vn.RD.String()], c17PfxIdx(vn.Prefix.String()))
+			if cw.susp[i] {
+				continue // nothing may have been sent yet
+			}
+			if cw.interestedAsCoded(i, b.GetExtCommunities()) {
+				asCoded[key] = int(vwMarker(b.GetPathAttrs()))
+			}
 			if cw.interested(i, b.GetExtCommunities()) {
-				vn := b.GetNlri().(*bgp.LabeledVPNIPAddrPrefix)
-				want[fmt.Sprintf("%d %d", c17RDNames[vn.RD.String()], c17PfxIdx(vn.Prefix.String()))] = int(vwMarker(b.GetPathAttrs()))
+				want[key] = int(vwMarker(b.GetPathAttrs()))
 				cw.o.stat("obs_route_wanted", 1)
 			} else {
 				cw.o.stat("obs_route_filtered", 1)
 			}
 		}
 		if c17ViewStr(want) != c17ViewStr(cw.obsView[i]) {
-			cw.o.fail("rtc-invariant", map[string]any{"after": after, "observer": i, "holds": c17ViewStr(cw.obsView[i]), "entitled": c17ViewStr(want),
-				"memberships": fmt.Sprint(cw.memOn[i]), "history": append([]string{}, *hist...)})
+			cls := "rtc-invariant"
+			if (partial || cw.hadPartial[i]) && c17ViewStr(asCoded) == c17ViewStr(cw.obsView[i]) {
+				// known finding: a membership of length 33..95 is kept as an exact key (zero-padded), not as a prefix
+				cls = "rtc-partial-length-membership-not-prefix-matched"
+			}
+			cw.o.fail(cls, map[string]any{"after": after, "observer": i, "holds": c17ViewStr(cw.obsView[i]), "entitled": c17ViewStr(want),
+				"memberships (rt, origin AS, length)": fmt.Sprint(cw.memOn[i]), "suppressed": cw.susp[i], "history": append([]string{}, *hist...)})
 		}
 	}
 	for i, p := range cw.ces {
@@ -766,15 +836,46 @@ func (cw *c17World) do(ev c17Ev, hist *[]string) {
 		if !capable {
 			return
 		}
+		L := ev.memLen
+		if L == 0 {
+			switch {
+			case ev.rt != nil:
+				L = 96
+			case ev.as != 0:
+				L = 32
+			}
+		}
+		if ev.rt == nil && L > 32 {
+			return
+		}
+		if L <= 32 {
+			key = 0
+		} else {
+			key &= ^uint64(0) << (96 - L) // what is on the wire and what the receiver zero-pads
+		}
+		if L > 32 && L < 96 {
+			o.stat("mem_partial_length", 1)
+		} else {
+			o.stat(fmt.Sprintf("mem_length_%d", L), 1)
+		}
 		before := cw.interestedKey(ev.peer, key)
-		k := [3]uint64{key, uint64(ev.as), 0}
+		k := [3]uint64{key, uint64(ev.as), uint64(L)}
 		if ev.memWd {
 			delete(cw.memOn[ev.peer], k)
+			delete(cw.memCode[ev.peer], [2]uint64{key, uint64(ev.as)})
+			if L > 32 && L < 96 {
+				cw.hadPartial[ev.peer] = true
+			}
 		} else {
 			cw.memOn[ev.peer][k] = true
+			cw.memCode[ev.peer][[2]uint64{key, uint64(ev.as)}] = true
 		}
 		after := cw.interestedKey(ev.peer, key)
-		desc = fmt.Sprintf("mem obs=%d rt=%d as=%d wd=%v lp=%d", ev.peer, key, ev.as, ev.memWd, []uint32{100, 200, 200, 50}[ev.lpr%4])
+		c17RtmLen = -1
+		if ev.memLen != 0 || (ev.rt == nil && ev.as != 0) {
+			c17RtmLen = L
+		}
+		desc = fmt.Sprintf("mem obs=%d rt=%d/%d as=%d wd=%v lp=%d suppressed=%v", ev.peer, key, L, ev.as, ev.memWd, []uint32{100, 200, 200, 50}[ev.lpr%4], cw.susp[ev.peer])
 		*hist = append(*hist, desc)
 		held := map[string]int{}
 		for k, v := range cw.obsView[ev.peer] {
@@ -783,6 +884,7 @@ func (cw *c17World) do(ev c17Ev, hist *[]string) {
 		// the membership may be preferred over (200), tie with (100) or lose against (50) the one this
 		// speaker originates for the same target
 		w.recv(ob.vwPeer, c17Rtm(ob, ev.as, ev.rt, ev.memWd, []uint32{100, 200, 200, 50}[ev.lpr%4]))
+		c17RtmLen = -1
 		if ev.memWd {
 			o.stat("mem_withdraw", 1)
 		} else {
@@ -798,6 +900,11 @@ func (cw *c17World) do(ev c17Ev, hist *[]string) {
 			o.ask(c17Join(msgs), "rtc %d %d %d 0 %d 0", i, key, ev.as, b2iC17(ev.memWd))
 			// delta exactness
 			switch {
+			case cw.susp[ev.peer]:
+				o.stat("mem_while_suppressed", 1)
+				if len(msgs) != 0 {
+					o.fail("rtc-minimal", map[string]any{"after": desc, "sent-while-updates-are-deferred": msgs, "history": append([]string{}, *hist...)})
+				}
 			case before == after:
 				o.stat("mem_interest_unchanged", 1)
 				if len(msgs) != 0 {
@@ -970,12 +1077,63 @@ func (cw *c17World) do(ev c17Ev, hist *[]string) {
 				}
 			}
 		}
+	case "suspend":
+		// A new session on which the local speaker is the restarting one (RFC 4724 4.1): updates toward
+		// the peer are deferred. The peer's memberships must be recorded all the same, so that the
+		// deferred table transfer honours them.
+		ob := cw.obs[ev.peer]
+		if cw.susp[ev.peer] {
+			return
+		}
+		desc = fmt.Sprintf("suspend obs=%d (session restarted, local speaker restarting: updates deferred)", ev.peer)
+		*hist = append(*hist, desc)
+		w.sessionDown(ob.vwPeer, fsmReadFailed)
+		cw.memOn[ev.peer] = map[[3]uint64]bool{}
+		cw.memCode[ev.peer] = map[[2]uint64]bool{}
+		cw.hadPartial[ev.peer] = false
+		cw.obsView[ev.peer] = map[string]int{}
+		o.op("memreset %d", ev.peer)
+		cw.flushAll(nil, nil)
+		c17SessionUp(w, ob)
+		cw.flushAll(nil, nil)
+		ob.p.fsm.lock.Lock()
+		pc := ob.p.fsm.pConf.ReadCopy()
+		pc.GracefulRestart.State.LocalRestarting = true
+		ob.p.fsm.pConf.Update(&pc)
+		ob.p.fsm.lock.Unlock()
+		cw.susp[ev.peer] = true
+		o.op("suspend %d", ev.peer)
+		o.stat("observer_suspend", 1)
+	case "resume":
+		ob := cw.obs[ev.peer]
+		if !cw.susp[ev.peer] {
+			return
+		}
+		desc = fmt.Sprintf("resume obs=%d (deferral over: deferred table transfer)", ev.peer)
+		*hist = append(*hist, desc)
+		if err := w.s.softResetOut(ob.spec.addr.String(), bgp.Family(0), true); err != nil {
+			o.fail("resume", err.Error())
+		}
+		cw.susp[ev.peer] = false
+		o.stat("observer_resume", 1)
+		cw.flushAll(func(i int, msgs []string) {
+			if i == ev.peer {
+				o.ask(c17Join(msgs), "resume %d", i)
+			} else if len(msgs) != 0 {
+				o.fail("rtc-minimal", map[string]any{"after": desc, "other-observer-was-sent": msgs})
+			}
+		}, cw.noPlain(desc))
 	case "bounce":
 		ob := cw.obs[ev.peer]
+		if cw.susp[ev.peer] {
+			return
+		}
 		desc = fmt.Sprintf("bounce obs=%d", ev.peer)
 		*hist = append(*hist, desc)
 		w.sessionDown(ob.vwPeer, fsmReadFailed)
 		cw.memOn[ev.peer] = map[[3]uint64]bool{}
+		cw.memCode[ev.peer] = map[[2]uint64]bool{}
+		cw.hadPartial[ev.peer] = false
 		cw.obsView[ev.peer] = map[string]int{}
 		o.op("memreset %d", ev.peer)
 		cw.flushAll(nil, nil)
@@ -1036,7 +1194,7 @@ func (cw *c17World) noPlain(desc string) func(int, []string) {
 }
 
 func (cw *c17World) interestedKey(i int, key uint64) bool {
-	for k := range cw.memOn[i] {
+	for k := range cw.memCode[i] {
 		if k[0] == key {
 			return true
 		}
@@ -1125,6 +1283,16 @@ func c17GenEv(r *vRand, cw *c17World) c17Ev {
 		default:
 			ev.rt = c17SrvPool[r.intn(4)]
 		}
+		// the whole length domain: 0 and 32 (nil route target), partial 40..88, 96
+		switch z := r.intn(20); {
+		case z == 0:
+			ev.rt, ev.memLen = nil, 32
+			if ev.as == 0 {
+				ev.as = 65000
+			}
+		case z == 1 && ev.rt != nil:
+			ev.memLen = r.pick(48, 64, 64, 72, 88) // not 40: the first octet of a two-octet-AS target is 0, the zero-padded key would be the wildcard key
+		}
 		return ev
 	case x < 86:
 		ce := r.intn(2)
@@ -1137,6 +1305,12 @@ func c17GenEv(r *vRand, cw *c17World) c17Ev {
 		ce := r.intn(2)
 		return c17Ev{kind: "cewd", peer: ce, pfx: 6 + ce}
 	case x < 95:
+		if r.chance(30) {
+			if r.chance(50) {
+				return c17Ev{kind: "suspend", peer: r.intn(2)}
+			}
+			return c17Ev{kind: "resume", peer: r.intn(2)}
+		}
 		if r.chance(70) {
 			if r.chance(80) {
 				return c17Ev{kind: "softin", peer: r.intn(4)}
@@ -1248,6 +1422,31 @@ func c17CorpusSrv(t testing.TB, o *vOut) {
 			{kind: "ann", peer: 1, rd: 6, pfx: 0, lpr: 4, ecs: ecs(X)}, // replaced by a better one
 			{kind: "ann", peer: 1, rd: 6, pfx: 0, lpr: 4, ecs: ecs(Z)}, // no longer imported: falls back?
 			{kind: "wd", peer: 0, rd: 5, pfx: 0}, {kind: "wd", peer: 1, rd: 6, pfx: 0}},
+	}
+	gr := [][]c17Ev{
+		// memberships arriving while updates toward the peer are deferred (seeded change C17-O): recorded
+		// all the same, honoured by the deferred transfer; changes during the deferral included
+		{{kind: "ann", peer: 0, rd: 5, pfx: 1, ecs: ecs(X)}, {kind: "ann", peer: 1, rd: 6, pfx: 2, ecs: ecs(Y)}, {kind: "ann", peer: 1, rd: 7, pfx: 4, ecs: ecs(Z)},
+			{kind: "suspend", peer: 0}, {kind: "mem", peer: 0, rt: X, as: 65000}, {kind: "mem", peer: 0, rt: Y, as: 65000},
+			{kind: "mem", peer: 0, rt: Y, as: 65000, memWd: true}, {kind: "ann", peer: 0, rd: 5, pfx: 1, ecs: ecs(X, Z)},
+			{kind: "resume", peer: 0}, {kind: "mem", peer: 0, rt: Z, as: 65000}, {kind: "mem", peer: 0, rt: X, as: 65000, memWd: true}},
+		// the origin-AS-only membership /32 (seeded change C17-P) next to the default and a specific one
+		{{kind: "ann", peer: 0, rd: 5, pfx: 1, ecs: ecs(X)}, {kind: "ann", peer: 1, rd: 6, pfx: 2, ecs: ecs(Y)},
+			{kind: "mem", peer: 0, as: 65000, memLen: 32}, {kind: "mem", peer: 0, rt: X, as: 65000},
+			{kind: "mem", peer: 0, as: 65000, memLen: 32, memWd: true}, {kind: "mem", peer: 0, as: 65001, memLen: 32},
+			{kind: "mem", peer: 0, as: 0}, {kind: "mem", peer: 0, as: 65001, memLen: 32, memWd: true}, {kind: "mem", peer: 0, as: 0, memWd: true}},
+		// partial-length memberships (known finding rtc-partial-length-membership-not-prefix-matched)
+		{{kind: "ann", peer: 0, rd: 5, pfx: 1, ecs: ecs(X)}, {kind: "ann", peer: 1, rd: 6, pfx: 2, ecs: ecs(Y)},
+			{kind: "mem", peer: 0, rt: X, as: 65000, memLen: 64}, {kind: "mem", peer: 0, rt: X, as: 65000, memLen: 64, memWd: true}},
+	}
+	for _, c := range gr {
+		cw := c17NewWorld(t, o)
+		hist := []string{}
+		for _, ev := range c {
+			cw.do(ev, &hist)
+		}
+		cw.w.stop()
+		o.stat("corpus_cases", 1)
 	}
 	for _, c := range dual {
 		cw := c17NewWorld(t, o)
